@@ -420,7 +420,13 @@ func (r *recRunner) syncAndReport(kv map[string]string, ctx string) (string, str
 		r.tainted = true
 		return "retried-after-failure", r.oracle("retry-after-failed-batch")
 	}
-	return r.state(), r.oracle(ctx)
+	// hyp: the oracle's own evaluation of the look-ahead hypothesis; the Lean driver evaluates the hypotheses of
+	// theorem C16_complete (checkWF && checkLA) on the same chain and the two must agree
+	hyp := 0
+	if r.hypOK {
+		hyp = 1
+	}
+	return fmt.Sprintf("%s hyp=%d", r.state(), hyp), r.oracle(ctx)
 }
 
 func (r *recRunner) hasScope(s int) bool {
